@@ -299,7 +299,7 @@ def run(ctx):
         for k in range(3):
             jobs.append((v, segs[k::3], adocs, ctx.seed, quick))
     events = []
-    for part in pmap(_chunk, jobs):
+    for part in pmap(_chunk, jobs, fresh=True):
         events.extend(part)
     for i, e in enumerate(events):
         e["id"] = i + 1
